@@ -376,9 +376,11 @@ impl TmplGroup {
         module_name: &str,
         new_content: &str,
     ) -> Result<(), TmplError> {
-        Ok(self
-            .get_tree_mut(path)?
-            .set_inline_script_content(module_name, new_content))
+        self.get_tree_mut(path)?
+            .set_inline_script_content(module_name, new_content);
+        // (the file may not have had any script before: the script runtime is needed now)
+        self.has_scripts = true;
+        Ok(())
     }
 
     /// Convert to WXML GenObject js string.
